@@ -201,6 +201,43 @@ func runC12(c *bx.Ctx) {
 	for v := 0; v <= 20; v++ {
 		win37 = append(win37, uint16(v))
 	}
+	// every 16-bit distance between neighbours: lists (a, a+d) for all 65536 d, and (a, a+d1, a+d1+d2)
+	// over a set of boundary distances (bit-index limits, byte and word carries)
+	gaps := map[uint16]bool{}
+	for _, g := range []int{0, 1, 2, 14, 15, 16, 17, 18, 31, 32, 33, 4095, 4096, 32767, 32768, 32769, 65279, 65280, 65519, 65520, 65521, 65534, 65535} {
+		gaps[uint16(g)] = true
+	}
+	for k := 3; k <= 16; k++ {
+		for d := -1; d <= 17; d++ {
+			gaps[uint16((1<<uint(k))+d)] = true
+		}
+	}
+	var gapList []uint16
+	for g := 0; g < 65536; g++ {
+		if gaps[uint16(g)] {
+			gapList = append(gapList, uint16(g))
+		}
+	}
+	c.Space("lists.all-distances")
+	for _, a := range []uint16{0, 100, 65530, 32760} {
+		for hi := 0; hi < 256; hi++ {
+			if !c.MineBlock(256) {
+				continue
+			}
+			for lo := 0; lo < 256; lo++ {
+				d := uint16(hi)<<8 | uint16(lo)
+				c12List(c, []uint16{a, a + d})
+			}
+		}
+		for _, d1 := range gapList {
+			if !c.MineBlock(int64(len(gapList))) {
+				continue
+			}
+			for _, d2 := range gapList {
+				c12List(c, []uint16{a, a + d1, a + d1 + d2})
+			}
+		}
+	}
 	win8 := []uint16{65533, 65534, 65535, 0, 1, 16, 17, 18}
 	c.Space("lists.window37")
 	allLists(c, win37, 4)
